@@ -72,6 +72,7 @@ def main():
             'level_note': c['note'],
             'technique': c['technique'],
         })
+    man['engines'] = [e for e in man['engines'] if e['serves_properties']]
     (VERIF / 'MANIFEST.json').write_text(json.dumps(man, indent=1) + '\n')
     print('claimed', len(man['checks']), 'not_applicable', len(man['not_applicable']))
 
